@@ -53,22 +53,24 @@ NAMES = ["a", "b", "t", "u", "r", "s", "one", "half", "w", "mx"]
 ARGNAMES = ["x", "y", "z", "w", "q"]
 
 
-def _valspec(rng, named_pool, alt):
+def _valspec(rng, named_pool, alt, allow_inf=True):
     r = rng.random()
     if r < 0.22 and named_pool:
         return ["s", rng.choice(named_pool)]
     if r < 0.45:
         return ["i", rng.choice(INTS)]
+    fl = FLOATS if allow_inf else FLOATS[:-1]
     if r < 0.80:
-        return ["f", float(rng.choice(FLOATS)).hex()]
+        return ["f", float(rng.choice(fl)).hex()]
     if r < 0.88:
         return ["f32", float(rng.choice(FLOATS[:9])).hex()]
-    if r < 0.96:
-        return ["f64", float(rng.choice(FLOATS)).hex()]
+    if r < 0.96 or not named_pool:
+        return ["f64", float(rng.choice(fl)).hex()]
     return ["s", rng.choice(["inf", "-inf", "+inf"])]
 
 
-def gen_recipe(rng, target, kinds, named, alt=False, dct=None, size=None, must_use=None, malformed=False, rid="", weights=None):
+def gen_recipe(rng, target, kinds, named, alt=False, dct=None, size=None, must_use=None, malformed=False, rid="", weights=None,
+               const_bias=0.22, allow_inf=True):
     """kinds: kinds the target declares; named: named constants it declares; must_use: kind to include;
     weights: kind -> relative weight (kinds the target rejects in every context get a small one)."""
     T = ARGTYPES[target]
@@ -112,7 +114,7 @@ def gen_recipe(rng, target, kinds, named, alt=False, dct=None, size=None, must_u
             like = pick("R")
             if like is None:
                 like = 0
-        v = _valspec(rng, named, alt)
+        v = _valspec(rng, named, alt, allow_inf)
         if malformed and rng.random() < 0.3:
             v = ["s", rng.choice(["eps", "undefined", "smallest_subnormal", "nan"])]
         return add_node(["const", v, like], cls[like] if like is not None else "R")
@@ -120,7 +122,7 @@ def gen_recipe(rng, target, kinds, named, alt=False, dct=None, size=None, must_u
     def operand(c):
         """an operand of class c: an existing node, a fresh constant, or (for pyop) a Python number"""
         r = rng.random()
-        if c in "RCN" and r < 0.22:
+        if c in "RCN" and r < const_bias:
             return make_const(c if c != "N" else rng.choice("RC") if pick("C", False) is not None else "R")
         i = pick(c)
         if i is None:
